@@ -4,6 +4,7 @@ From Emitter Require Import Lib.Base Model.MsgCodec Model.Murmur Model.Channel M
 Inductive gout := GOk (k : bytes) (channel : bytes) | GErr (e : gerr) | GPanic.
 
 Inductive case :=
+| CCreate (parent : res kerr key) (parent_str : bytes) (ct : contract) (now : Z) (channel : bytes) (access : N) (expires : Z) (out : gout)
 | CGen (parent : res kerr key) (parent_str : bytes) (ct : contract) (now : Z)
        (channel ty : bytes) (ttl expires : Z) (conn_id : bytes) (out : gout)
 (* the parent key string presented to Authorize after the request: still the key it was *)
@@ -24,6 +25,27 @@ Definition gerr_eqb (a b : gerr) : bool :=
 
 Definition check (c : case) : N :=
   match c with
+  | CCreate parent pstr ct now channel access expires out =>
+    let decrypt := fun s => if bytes_eqb s pstr then parent else Err KCorrupt in
+    let contracts := fun id => if id =? ct_id ct then Some ct else None in
+    let salt := match out with GOk k _ => key_salt k | _ => 0 end in
+    let m := create_key murmur decrypt contracts now pstr channel access expires salt in
+    let corr := match m, out with
+                | Ok mk, GOk k _ => key_close mk k
+                | Err e, GErr e' => gerr_eqb e e'
+                | Panic, GPanic => true
+                | _, _ => false
+                end in
+    (* only a valid, unexpired master key of the contract on file mints; never a master key *)
+    let oracle := match out, parent with
+                  | GOk k _, Ok p => is_master p && negb (is_expired p now) && contract_validate ct p
+                                     && (N.land (key_perms k) AllowMaster =? 0) && (N.land (key_perms k) (N.lnot access 8) =? 0)
+                                     && (key_contract k =? key_contract p)
+                  | GOk _ _, _ => false
+                  | GPanic, _ => false
+                  | GErr _, _ => true
+                  end in
+    bit corr 1 |+| bit oracle 2
   | CGen parent pstr ct now channel ty ttl expires conn out =>
     let decrypt := fun s => if bytes_eqb s pstr then parent else Err KCorrupt in
     let contracts := fun id => if id =? ct_id ct then Some ct else None in
